@@ -15,6 +15,7 @@ import re
 import shutil
 import subprocess
 
+os.environ['VERIF_EVIDENCE_DIR'] = '/tmp/pp-evidence-scratch'
 VERIF = os.path.dirname(os.path.dirname(os.path.abspath(__file__)))
 
 
